@@ -371,6 +371,9 @@ def endElement(self, name):
     else:
         data = ''.join(self._cdata).strip()
         self._cdata = None
+        if self._position is None:
+            # an empty element has no character data to take a position from
+            self._position = self.get_position()
         getattr(self, "characters_" + name)(data)
 
 
